@@ -64,6 +64,9 @@ func funcDecl(f *ast.File, recv, name string) *ast.FuncDecl {
 			if st, ok := t.(*ast.StarExpr); ok {
 				t = st.X
 			}
+			if ix, ok := t.(*ast.IndexExpr); ok { // generic receiver: *T[P]
+				t = ix.X
+			}
 			if id, ok := t.(*ast.Ident); ok {
 				r = id.Name
 			}
